@@ -92,6 +92,13 @@ def main(prop):
         extra_cov = {'nucleo_level_schedules': ngen['runs'], 'nucleo_level_events_validated': ntot.get('events', 0),
                      'nucleo_level_scenarios': ngen['scenarios']}
         tot['runs'] = tot.get('runs', 0) + ntot.get('runs', 0)
+        if prop == 'C11':
+            import lifecycle_stage
+            lv, lcov, ls, lt, ln = lifecycle_stage.run(prop, wd, thorough)
+            violations += lv
+            states += ls; trans += lt
+            tot['runs'] += ln
+            extra_cov.update(lcov)
     sample = run_excerpt(files[0], json.loads(open(files[0]).readline())['run'], 60)
     cov = {
         'states': states, 'transitions': trans,
